@@ -3,7 +3,7 @@
  RateMapOps.tla / RateMap.tla: tskit.RateMap (python/tskit/intervals.py) on a tick grid.
    (1) model checking: every well-formed map with <= L ticks and rates in {NaN, 0, 1, 3}, every chain of <= 2 slice calls (valid or
        not, trimmed or not): WellFormed, Meaning (a slice integrates and reads like its source inside [l, r) and knows nothing outside),
-       Boundaries, ValueIff, CumShape, WholeIsIdentity, NoNewMass.
+       Boundaries, ValueIff, CumShape, WholeIsIdentity, Composition, NoNewMass.
    (2) spec -> code: TLC (Dump_RateMap) writes every map with the integral at every tick, the containing interval of every tick and the
        known span, and every slice call with its outcome; each is replayed on a real tskit.RateMap (1 tick = 0.5 units, rate r = r / 4, so
        every expected float is exact): position / rate / left / right / span / mass / missing / counts, get_cumulative_mass (ticks and
@@ -231,7 +231,7 @@ def run():
         raise common.MachineryError("replay accepted %d corrupted slice records" % (tot - rej))
     chk.sample(dict(map=recs[-1]["map"], call=recs[-1]["calls"][5]))
     chk.rule = ("RateMap.tla model-checked over every well-formed map on the tick grid and every chain of <= 2 slice calls (WellFormed, "
-                "Meaning, Boundaries, ValueIff, CumShape, WholeIsIdentity, NoNewMass); every map and every slice call enumerated by "
+                "Meaning, Boundaries, ValueIff, CumShape, WholeIsIdentity, Composition, NoNewMass); every map and every slice call enumerated by "
                 "Dump_RateMap replayed on tskit.RateMap with all array views, integrals, lookups, error outcomes and slice routes compared")
     chk.assumptions = ["beyond-property coverage: not listed in MANIFEST.json",
                        "coordinates on a tick grid (0.5 units) and rates in quarter units so that float results are exact; "
